@@ -381,6 +381,14 @@ func init() {
 			},
 		},
 		{
+			// function names are registered in lower and upper case only: Abs(x), Upper(s) are unknown to expr-lang
+			name: "mixed-case-fn",
+			detect: func(c *Case, ctx string) bool {
+				return isExpr(c) && c.Title && (hasOp(c.Expr, "call") || ctx == "arg")
+			},
+			rewrite: func(c *Case) { c.Title = false },
+		},
+		{
 			name: "not-where",
 			detect: func(c *Case, ctx string) bool {
 				return isExpr(c) && ctx == "where" && hasOp(c.Expr, "not")
